@@ -41,7 +41,7 @@ NAMES = ["A", "B", "close", "Z"]
 
 def plan(tier):
     if tier == "thorough":
-        return {"shards": 16, "cases": 8000, "shard_timeout_s": 3000, "shard_budget_s": 1500}
+        return {"shards": 16, "cases": 20000, "shard_timeout_s": 3000, "shard_budget_s": 1500}
     return {"shards": 16, "cases": 480, "shard_timeout_s": 600, "shard_budget_s": 100}
 
 
